@@ -535,3 +535,92 @@ fn ensure_block_hashes_match(in_commit: &[u8], in_header: &block::Hash) -> eyre:
     );
     Ok(())
 }
+
+// ---------------------------------------------------------------------------------------------
+// verification hooks (feature `verif`): add-only accessors / constructors, no production logic.
+// ---------------------------------------------------------------------------------------------
+
+#[cfg(feature = "verif")]
+impl VerifiedBlobs {
+    /// Treats all `header_blobs` as verified *without* verifying them (keyed by block hash the
+    /// same way [`verify_metadata`] keys its output). Only for checks that exercise decoding and
+    /// reconstruction in isolation.
+    pub(super) fn verif_assume_verified(
+        celestia_height: u64,
+        header_blobs: Vec<SubmittedMetadata>,
+        rollup_blobs: Vec<SubmittedRollupData>,
+    ) -> Self {
+        let mut verified = HashMap::with_capacity(header_blobs.len());
+        for blob in header_blobs {
+            verified.insert(*blob.block_hash(), blob);
+        }
+        Self {
+            celestia_height,
+            header_blobs: verified,
+            rollup_blobs,
+        }
+    }
+}
+
+/// Source of the `/commit` and `/validators` responses that [`BlobVerifier`] normally obtains
+/// from Sequencer's CometBFT RPC through [`SequencerClient`].
+#[cfg(feature = "verif")]
+pub(super) trait VerifCometBftSource: Send + Sync + 'static {
+    fn commit(
+        &self,
+        height: SequencerHeight,
+    ) -> Result<tendermint_rpc::endpoint::commit::Response, tendermint_rpc::Error>;
+
+    fn validators(
+        &self,
+        height: SequencerHeight,
+    ) -> Result<tendermint_rpc::endpoint::validators::Response, tendermint_rpc::Error>;
+}
+
+#[cfg(feature = "verif")]
+impl BlobVerifier {
+    /// Like [`BlobVerifier::try_new`], but the service answering [`VerificationRequest`]s calls
+    /// `source` where production calls `SequencerClient::commit` / `SequencerClient::validators`
+    /// (no retry, buffer or rate-limit layers). Cache and verification logic are the real ones.
+    pub(super) fn verif_with_source(source: Arc<dyn VerifCometBftSource>) -> Self {
+        let service = tower::ServiceBuilder::new()
+            .layer(tower::util::BoxCloneSyncServiceLayer::new(
+                tower::layer::util::Identity::new(),
+            ))
+            .service_fn(move |req: VerificationRequest| {
+                let source = source.clone();
+                async move {
+                    match req {
+                        VerificationRequest::Commit {
+                            height,
+                        } => source
+                            .commit(height)
+                            .map(VerificationResponse::from)
+                            .map_err(|source| {
+                                BoxError::from(VerificationMetaError::FetchCommit {
+                                    height,
+                                    source,
+                                })
+                            }),
+                        VerificationRequest::Validators {
+                            height,
+                        } => source
+                            .validators(height)
+                            .map(VerificationResponse::from)
+                            .map_err(|source| {
+                                BoxError::from(VerificationMetaError::FetchValidators {
+                                    height,
+                                    source,
+                                })
+                            }),
+                    }
+                }
+            });
+        Self {
+            cache: Cache::new(6_000),
+            client: RateLimitedVerificationClient {
+                inner: service,
+            },
+        }
+    }
+}
